@@ -1,6 +1,7 @@
 package props
 
 import (
+	"bytes"
 	"fmt"
 	"go/format"
 	"go/token"
@@ -10,6 +11,8 @@ import (
 
 	"github.com/dave/dst"
 	"github.com/dave/dst/decorator"
+	"github.com/dave/dst/decorator/resolver/goast"
+	"github.com/dave/dst/decorator/resolver/simple"
 
 	"verif/internal/fw"
 	"verif/internal/obs"
@@ -19,7 +22,7 @@ func init() {
 	fw.Register(&fw.Check{
 		ID:    "C05",
 		Level: "exploration",
-		Rule: "cases: for each of 6 list kinds (block statements, case-clause bodies, composite-literal elements, call arguments, struct fields, parenthesised value specs) and n = 1..3 " +
+		Rule: "cases: for each of 8 list kinds (block statements, case-clause bodies, composite-literal elements, call arguments, struct fields, parenthesised value specs, and composite-literal elements / call arguments that are package-qualified identifiers restored with import management) and n = 1..3 " +
 			"elements (n = 4 and seeded longer lists in the thorough tier), EVERY assignment of None/NewLine/EmptyLine to Before/After of every element (3^(2n), exhaustive), combined with " +
 			"each comment pattern: none, End line comment, Start line comment, End \"\\n\", End \"\\n\\n\", End line comment + Start line comment. Reference model written from the " +
 			"statement: adjacent After/Before combine by max; one blank line iff that max is EmptyLine (or two explicit \"\\n\" decorations were given), none otherwise; Before of the first " +
@@ -32,7 +35,7 @@ func init() {
 			"top-level declarations are excluded: go/printer forces blank lines between declarations of different kinds regardless of positions",
 			"struct fields and parenthesised specs: gofmt strips blank lines directly after '{'/'(' and before '}'/')', so only between-element blank lines are asserted there",
 		},
-		Required: map[string]int{"list_kinds": 6, "patterns": 6},
+		Required: map[string]int{"list_kinds": 8, "patterns": 6},
 	})
 }
 
@@ -43,6 +46,7 @@ type c05Kind struct {
 	edges     bool // blank lines at the delimiters are kept by gofmt
 	exprList  bool // elements are expressions: own line only with NewLine spacing
 	stmtLevel bool
+	imports   bool // elements are package-qualified identifiers: decorated and restored with import management
 }
 
 func names(n int) []string {
@@ -115,6 +119,36 @@ var c05Kinds = []c05Kind{
 			}
 			return out
 		}},
+	{name: "composite-literal-qualified", edges: true, exprList: true, imports: true,
+		tmpl: func(n int) string {
+			s := "package p\n\nimport \"x/pk\"\n\nvar v = []int{\n"
+			for _, e := range names(n) {
+				s += "\tpk." + e + ",\n"
+			}
+			return s + "}\n"
+		},
+		elems: func(f *dst.File, n int) []dst.Node {
+			var out []dst.Node
+			for _, e := range f.Decls[1].(*dst.GenDecl).Specs[0].(*dst.ValueSpec).Values[0].(*dst.CompositeLit).Elts {
+				out = append(out, e)
+			}
+			return out
+		}},
+	{name: "call-arguments-qualified", edges: false, exprList: true, imports: true,
+		tmpl: func(n int) string {
+			s := "package p\n\nimport \"x/pk\"\n\nvar v = f(\n"
+			for _, e := range names(n) {
+				s += "\tpk." + e + ",\n"
+			}
+			return s + ")\n"
+		},
+		elems: func(f *dst.File, n int) []dst.Node {
+			var out []dst.Node
+			for _, e := range f.Decls[1].(*dst.GenDecl).Specs[0].(*dst.ValueSpec).Values[0].(*dst.CallExpr).Args {
+				out = append(out, e)
+			}
+			return out
+		}},
 	{name: "struct-fields", edges: false,
 		tmpl: func(n int) string {
 			s := "package p\n\ntype T struct {\n"
@@ -155,11 +189,25 @@ func nodeDecs(n dst.Node) *dst.NodeDecs {
 
 // c05Case builds, prints and checks one assignment. sp[2i] = Before_i, sp[2i+1] = After_i.
 func c05Case(c *fw.Ctx, kind c05Kind, n int, pattern string, sp []dst.SpaceType, target int) {
-	f, err := decorator.Parse(kind.tmpl(n))
+	var f *dst.File
+	var err error
+	if kind.imports {
+		d := decorator.NewDecoratorWithImports(token.NewFileSet(), "x/self", goast.WithResolver(simple.New(map[string]string{"x/pk": "pk"})))
+		f, err = d.Parse(kind.tmpl(n))
+	} else {
+		f, err = decorator.Parse(kind.tmpl(n))
+	}
 	if err != nil {
 		panic(err)
 	}
 	els := kind.elems(f, n)
+	if kind.imports {
+		for _, e := range els {
+			if id, ok := e.(*dst.Ident); !ok || id.Path == "" {
+				panic("template element is not a path-carrying identifier")
+			}
+		}
+	}
 	for i, e := range els {
 		d := nodeDecs(e)
 		d.Before, d.After = sp[2*i], sp[2*i+1]
@@ -193,7 +241,20 @@ func c05Case(c *fw.Ctx, kind c05Kind, n int, pattern string, sp []dst.SpaceType,
 			}
 		}
 	}
-	out, perr := printFile(f)
+	out, perr := "", ""
+	if kind.imports {
+		var buf bytes.Buffer
+		if sig, detail := fw.Try(func() {
+			if err := decorator.NewRestorerWithImports("x/self", simple.New(map[string]string{"x/pk": "pk"})).Fprint(&buf, f); err != nil {
+				perr = err.Error()
+			}
+		}); sig != "" {
+			perr = sig + "\n" + detail
+		}
+		out = buf.String()
+	} else {
+		out, perr = printFile(f)
+	}
 	desc := func() string {
 		var parts []string
 		for i := range els {
